@@ -778,6 +778,18 @@ class NP:
                 B = src[1]
                 return STensor((AB,) + tuple(src[2:]), lambda i, *r: tf.fn(binop('//', i, B), binop('%', i, B), *r), t.dtype, view_of=t)
             return STensor((AB,) + tuple(src[2:]), lambda i, *r: tf.fn(uq(to_z3(i)), ur(to_z3(i)), *r), t.dtype, view_of=t)
+        # merge dims 1 and 2: (T, B, K, r..) -> (T, B*K, r..)
+        if len(src) >= 3 and len(shape) == len(src) - 1 and V.dim_eq(shape[0], src[0]) is True and \
+                all(V.dim_eq(a, b) is True for a, b in zip(shape[2:], src[3:])):
+            uq, ur, fl, AB = self.merged(ctx, src[1], src[2])
+            if not (not is_sym(shape[1]) and shape[1] == -1):
+                ok = z3.simplify(to_z3(shape[1]) == to_z3(src[1]) * to_z3(src[2]))
+                if not z3.is_true(ok):
+                    ctx.oblige(f'{interp.cur_func}.reshape@{line}', ok, kind='shape', line=line)
+            if not is_sym(AB):
+                K2 = src[2]
+                return STensor((src[0], AB) + tuple(src[3:]), lambda t0, i, *r: tf.fn(t0, binop('//', i, K2), binop('%', i, K2), *r), t.dtype, view_of=t)
+            return STensor((src[0], AB) + tuple(src[3:]), lambda t0, i, *r: tf.fn(t0, uq(to_z3(i)), ur(to_z3(i)), *r), t.dtype, view_of=t)
         # split a merged leading dim
         if len(shape) == len(src) + 1 and all(V.dim_eq(a, b) is True for a, b in zip(shape[2:], src[1:])):
             A, B = shape[0], shape[1]
@@ -847,6 +859,25 @@ class NP:
         shape = tuple(binop('*', d, r) for d, r in zip(a.shape, reps))
         af, sh = a.fn, a.shape
         return STensor(shape, lambda *i: af(*[x if r == 1 else binop('%', x, d) for x, d, r in zip(i, sh, reps)]), a.dtype)
+
+    def f_linalg_norm(self, interp, line, a, axis=None, keepdims=False):
+        a = as_tensor(a)
+        if axis is None or (axis % a.ndim) != a.ndim - 1 or is_sym(a.shape[-1]):
+            raise Unsupported('linalg.norm form')
+        n = a.shape[-1]
+        af = a.fn
+        u_ = self.unit
+        interp.ctx.use('numpy.linalg.norm(axis=-1): sqrt of the sum of squares of the last axis')
+
+        def fn(*idx):
+            lead = idx[:-1] if keepdims else idx
+            tot = None
+            for q in range(n):
+                x = V.to_real(af(*lead, q))
+                tot = x * x if tot is None else tot + x * x
+            return u_.sqrt(interp.ctx, tot)
+        shape = tuple(a.shape[:-1]) + ((1,) if keepdims else ())
+        return STensor(shape, fn, 'real')
 
     def f_shape(self, interp, line, a):
         return tuple(as_tensor(a).shape)
